@@ -1,5 +1,6 @@
 import OrsoVerif.Model.PyVal
 import OrsoVerif.Model.Estimators
+import OrsoVerif.Model.ProfileEst
 import OrsoVerif.Drv.C13
 /-! Driver glue for C14: evaluate `count_at`, `quantile` and the profile estimators of the model on
 a histogram state given by the harness (the implementation's own bins and bounds). -/
@@ -28,12 +29,65 @@ def eval (c : Codec K) (floor : K → K) : List PyVal → Option (List PyVal)
           .list (xs.map fun x => encOpt c (estimateAbove cnt mis bins mn mx x))]
   | _ => none
 
+/-- A base profile as the implementation built it: `[count, missing, minimum, maximum, histogram]`; nothing
+has been estimated on it yet. -/
+def decProf (c : Codec K) : PyVal → Option (EProf K)
+  | .list [count, missing, mn, mx, .list hist] => do
+    let cnt ← c.dec count
+    let mis ← c.dec missing
+    let mn ← decOpt c mn
+    let mx ← decOpt c mx
+    let hist ← decPairs c hist
+    pure { count := cnt, missing := mis, minimum := mn, maximum := mx, hist := hist, cache := none }
+  | _ => none
+
+def getReg (regs : List (Nat × EProf K)) (i : Nat) : Option (EProf K) := (regs.find? (·.1 == i)).map (·.2)
+def setReg (regs : List (Nat × EProf K)) (i : Nat) (p : EProf K) : List (Nat × EProf K) := (i, p) :: regs.filter (·.1 != i)
+
+/-- One step of a sequence on profile registers: `["q", r, probes]` estimates below and above every probe on
+register `r` (the object keeps the `Distogram` it worked on), `["add", dst, a, b]` stores `a + b`,
+`["copy", dst, a]` stores `a.deep_copy()`. -/
+def seqStep (c : Codec K) (regs : List (Nat × EProf K)) : PyVal → Option (List (Nat × EProf K) × PyVal)
+  | .list [.str "q", .int r, .list probes] => do
+    let p ← getReg regs r.toNat
+    let xs ← probes.mapM c.dec
+    let q := p.touch
+    pure (setReg regs r.toNat q,
+          .list [.str "q", .list (xs.map fun x => encOpt c (q.below x)), .list (xs.map fun x => encOpt c (q.above x))])
+  | .list [.str "add", .int dst, .int a, .int b] => do
+    let pa ← getReg regs a.toNat
+    let pb ← getReg regs b.toNat
+    match EProf.add pa pb with
+    | .error e => pure (regs, errOut e)
+    | .ok s => pure (setReg regs dst.toNat s, okOut)
+  | .list [.str "copy", .int dst, .int a] => do
+    let pa ← getReg regs a.toNat
+    pure (setReg regs dst.toNat pa, okOut)
+  | _ => none
+
+def runSeq (c : Codec K) : List (Nat × EProf K) → List PyVal → Option (List PyVal)
+  | _, [] => some []
+  | regs, op :: ops => do
+    let (regs', out) ← seqStep c regs op
+    let rest ← runSeq c regs' ops
+    pure (out :: rest)
+
+def pseq (c : Codec K) : List PyVal → Option (List PyVal)
+  | [.list bases, .list ops] => do
+    let ps ← bases.mapM (decProf c)
+    let regs := (List.range ps.length).zip ps
+    let outs ← runSeq c regs ops
+    pure [.list outs]
+  | _ => none
+
 end
 
 def handle (op : String) (args : List PyVal) : Option (List PyVal) :=
   match op, args with
   | "eval", .str "f" :: rest => eval floatCodec Float.floor rest
   | "eval", .str "q" :: rest => eval ratCodec (fun x => (x.floor : Rat)) rest
+  | "pseq", .str "f" :: rest => pseq floatCodec rest
+  | "pseq", .str "q" :: rest => pseq ratCodec rest
   | _, _ => none
 
 end Drv.C14
